@@ -7,7 +7,7 @@ import threading
 from vf import gen
 from vf.observe import snap_disk, snap_tree
 
-CLIENT_SOCKET_TIMEOUT = 60.0
+CLIENT_SOCKET_TIMEOUT = 40.0
 SERVER_CLIENT_TIMEOUT = 900.0  # idle clients are dropped after this; must exceed any case duration on a loaded machine
 JOIN_TIMEOUT = 10.0
 
@@ -430,6 +430,136 @@ def op_lock_episode(s, op):
     return out
 
 
+def disk_lock_status(s, name):
+    """(branch physically locked, repository physically locked) of branch `name`, read through fresh LOCAL objects."""
+    from breezy.branch import Branch
+
+    b = Branch.open(s.local_path(name))
+    return (b.get_physical_lock_status(), b.repository.get_physical_lock_status())
+
+
+def held_locks(s):
+    """Relative paths of every LockDir under the twin's served / local-only trees that is held on disk right now."""
+    out = []
+    for top in ("srv", "ext"):
+        base = os.path.join(s.root, top)
+        for dp, dns, _fns in os.walk(base):
+            if os.path.basename(dp) == "lock" and "held" in dns:
+                out.append(os.path.relpath(dp, s.root))
+                dns[:] = []
+    return sorted(out)
+
+
+def op_stale_lock(s, op):
+    """A write lock left behind on disk by a third party with local access (a process that died, or
+    lock_write / leave_lock_in_place / unlock) on the branch or on the repository; the actor under test then tries to
+    lock / write through its own location (path or bzr://).  After every attempt the lock state on disk is read
+    locally.  The third party finally takes its lock back with its token and releases it."""
+    from breezy import errors
+    from breezy.branch import Branch
+
+    out = []
+    name = op["b"]
+
+    def step(label, f):
+        try:
+            r = f()
+            out.append((label, "ok", r))
+            return True
+        except (Stuck, NeedsVfs):
+            raise
+        except errors.BzrError as e:
+            if is_stuck(e) or (s.base_url and os.environ.get("BRZ_NO_SMART_VFS") and is_needs_vfs(e)):
+                raise
+            out.append((label, "err", type(e).__name__))
+        except NotImplementedError:
+            out.append((label, "err", "NotImplementedError"))
+        return False
+
+    hb = Branch.open(s.local_path(name))
+    tok = None
+    if op["what"] == "branch":
+        tok = hb.lock_write().token
+        hb.leave_lock_in_place()
+        hb.unlock()
+    else:
+        tok = hb.repository.lock_write().repository_token
+        if tok is not None:
+            hb.repository.leave_lock_in_place()
+        hb.repository.unlock()
+    out.append(("planted", "ok", (tok is not None, disk_lock_status(s, name))))
+    try:
+        v = s.branch(name, op["slot"])
+        for att in op["attempts"]:
+            if att == "lock_write":
+                def f():
+                    v.lock_write()
+                    v.unlock()
+                    return "ACQUIRED"
+            elif att == "lock_write_bogus":
+                def f():
+                    v.lock_write(token=b"bogus-token")
+                    v.unlock()
+                    return "ACQUIRED-WITH-BOGUS-TOKEN"
+            elif att == "lock_read":
+                def f():
+                    with v.lock_read():
+                        return v.last_revision_info()
+            elif att == "tag_set":
+                def f():
+                    v.tags.set_tag(op["tag"], op["rev"])
+                    return "SET"
+            elif att == "set_lri":
+                def f():
+                    v.set_last_revision_info(*op["lri"])
+                    return "SET"
+            elif att == "repo_lock":
+                def f():
+                    r = v.repository
+                    r.lock_write()
+                    r.unlock()
+                    return "LOCKED-AND-RELEASED"
+            elif att == "repo_write":
+                def f():
+                    r = v.repository
+                    with r.lock_write():
+                        r.start_write_group()
+                        try:
+                            r.add_signature_text(op["sigrev"], op["text"])
+                        except BaseException:
+                            r.abort_write_group(suppress_errors=True)
+                            raise
+                        r.commit_write_group()
+                    return "WRITTEN"
+            else:
+                raise AssertionError(att)
+            step(att, f)
+            n = 0
+            while v.is_locked() and n < 8:
+                v.unlock()
+                n += 1
+            out.append(("disk-locks-after:" + att, "ok", disk_lock_status(s, name)))
+    finally:
+        # the third party comes back for its lock (never break_lock)
+        if tok is not None:
+            hb2 = Branch.open(s.local_path(name))
+
+            def release():
+                if op["what"] == "branch":
+                    hb2.lock_write(token=tok)
+                    hb2.dont_leave_lock_in_place()
+                    hb2.unlock()
+                else:
+                    hb2.repository.lock_write(token=tok)
+                    hb2.repository.dont_leave_lock_in_place()
+                    hb2.repository.unlock()
+                return "RELEASED"
+
+            step("owner-release", release)
+    out.append(("disk-locks-end", "ok", disk_lock_status(s, name)))
+    return out
+
+
 # -- repository reads
 
 def _repo(s, op):
@@ -597,9 +727,11 @@ def op_pack(s, op):
 def op_fetch(s, op):
     into = s.branch(op["into"], op["slot"]).repository
     frm = s.branch(op["from"], op["slot"]).repository
-    into.fetch(frm, revision_id=op.get("rev"))
+    into.fetch(frm, revision_id=op.get("rev"), find_ghosts=bool(op.get("fg")))
     with into.lock_read():
-        return sorted(into.all_revision_ids())
+        revs = sorted(into.all_revision_ids())
+        pm = into.get_parent_map(revs)
+        return (revs, sorted((k, tuple(v)) for k, v in pm.items()))
 
 
 def _result_tuple(res):
@@ -699,7 +831,7 @@ def op_commit(s, op):
 
 OPS = {k[3:]: v for k, v in list(globals().items()) if k.startswith("op_")}
 CONFIG_OPS = {"conf_set", "conf_get", "conf_remove", "push_loc_set", "push_loc_get"}
-MUTATING = {"tag_set", "tag_del", "conf_set", "conf_remove", "parent_set", "push_loc_set", "set_lri", "gen_rh",
+MUTATING = {"stale_lock", "tag_set", "tag_del", "conf_set", "conf_remove", "parent_set", "push_loc_set", "set_lri", "gen_rh",
             "lock_episode", "sig_add", "wg_abort", "pack", "fetch", "pull", "push", "push_new", "sprout", "commit"}
 
 
@@ -740,6 +872,36 @@ def mechanism(kind, op, lres, rres):
                     return "lock_episode:diverges-before:%s" % a[0]
                 return "lock_episode:%s:%s-vs-%s" % (a[0], a[2] if a[1] == "err" else "ok", b[2] if b[1] == "err" else "ok")
         return "lock_episode:length-differs"
+    if kind == "stale_lock":
+        for a, b in zip(lv, rv):
+            if a != b:
+                if a[0] != b[0]:
+                    return "stale_lock:%s-lock:diverges-before:%s" % (op["what"], a[0])
+                if a[0].startswith("disk-locks") and a[1] == b[1] == "ok":
+                    att = a[0].split(":", 1)[1] if ":" in a[0] else "end"
+                    (lb, lr), (rb, rr) = a[2], b[2]
+                    if lb == rb and rr and not lr:
+                        return "stale_lock:%s-lock:after-%s:repository-lock-left-held-on-served-twin" % (op["what"], att)
+                    if lr == rr and rb and not lb:
+                        return "stale_lock:%s-lock:after-%s:branch-lock-left-held-on-served-twin" % (op["what"], att)
+                    return "stale_lock:%s-lock:after-%s:lock-state-on-disk-differs" % (op["what"], att)
+                return "stale_lock:%s-lock:%s:%s-vs-%s" % (op["what"], a[0], a[2] if a[1] == "err" else "ok",
+                                                           b[2] if b[1] == "err" else "ok")
+        return "stale_lock:length-differs"
+    if kind == "fetch":
+        (lrevs, lpm), (rrevs, rpm) = lv, rv
+        fg = "find_ghosts" if op.get("fg") else "plain"
+        ls, rs = set(lrevs), set(rrevs)
+        if ls != rs:
+            if rs < ls:
+                dl = dict(lpm)
+                was_ghost = any(x in p for x in ls - rs for r_ in rs for p in [dl.get(r_, ())])
+                return "fetch:%s:%s" % (fg, "ghost-filled-locally-not-through-server" if was_ghost
+                                        else "revisions-missing-on-served-twin")
+            if ls < rs:
+                return "fetch:%s:extra-revisions-on-served-twin" % fg
+            return "fetch:%s:revision-set-differs" % fg
+        return "fetch:%s:parent-map-differs" % fg
     if kind == "parent_map":
         dl, dr = dict(lv), dict(rv)
         if set(dl) - set(dr) == {b"null:"} and not set(dr) - set(dl):
